@@ -254,7 +254,7 @@ class Program:
                             elif ds.endswith(".setter"):
                                 kind = "setter"
                                 is_setter = True
-                            elif ds == "classproperty":
+                            elif ds.split(".")[-1] == "classproperty":
                                 kind = "classproperty"
                         f = FuncInfo(m, c, cst, kind)
                         if is_setter:
@@ -271,6 +271,8 @@ class Program:
                 for t in st.targets:
                     if isinstance(t, ast.Name):
                         m.constants[t.id] = st.value
+            elif isinstance(st, ast.AnnAssign) and isinstance(st.target, ast.Name) and st.value is not None:
+                m.constants[st.target.id] = st.value
 
     def _resolve_bases(self, c: ClassInfo):
         for b in c.base_exprs:
@@ -395,6 +397,11 @@ class Program:
         if m is None:
             raise AnalysisError(f"anchor module {name} not found")
         return m
+
+    def flat(self, qualname) -> FuncInfo:
+        """The function with its exactly-inlinable private helpers inlined (see flatten.py)."""
+        from .flatten import flat
+        return flat(self, self.func(qualname))
 
     def all_functions(self):
         return list(self.functions.values())
